@@ -160,6 +160,8 @@ def main(ck, tier, w):
                 cases.append((cb, h, s, 'removed', None))
                 cases.append((cb, h, s, 'emptied', None))
                 cases.append((cb, h, s, 'past_eof', None))
+                if cb == 'csvdump' or not quick:
+                    cases.append((cb, h, s, 'past_eof', 2 ** 32 * (1 + h % 3)))       # the block's own offset plus k * 2^32: still beyond the end of the file
                 for c in (cuts if cb == 'csvdump' or not quick else cuts[:3]):
                     cases.append((cb, h, s, 'truncated', c))
 
@@ -186,7 +188,7 @@ def main(ck, tier, w):
             shutil.rmtree(os.path.join(dd, 'index'))
             kvs = dict(d.kvs)
             b = blocks[h]
-            kvs[b'b' + b['hash']] = btc.index_record(1, h, datadir.ACTIVE, 1, fno, os.path.getsize(p) + 8 + rng.randrange(100), 0, b['hdr'])
+            kvs[b'b' + b['hash']] = btc.index_record(1, h, datadir.ACTIVE, 1, fno, (os.path.getsize(p) + 8 + rng.randrange(100)) if cut is None else off + cut, 0, b['hdr'])
             from lib.ldb import write_leveldb
             write_leveldb(os.path.join(dd, 'index'), sorted(kvs.items()))
         # the first unreadable height of the range: all blocks of that file at or after the damage
